@@ -92,6 +92,21 @@ class SegmMachine(Machine):
                         'contrast': rng.pick([0.0, 1e-3, 0.05]),
                         'mode': rng.pick(['exponential', 'linear', 'sinh']),
                         'relabel': rng.chance(0.5)})
+            if rng.chance(0.35):
+                # the image comes out of the multi-process path (simulated
+                # pool, arbitrary completion order)
+                order = list(range(12))
+                rng.shuffle(order)
+                out['pool'] = {'nproc': rng.pick([2, 3]),
+                               'sched': {'mode': 'adversary', 'order': order,
+                                         'head_perm': [], 'cpu_count': 4}}
+            if rng.chance(0.3):
+                # two passes: the first result is deblended again
+                out['second_pass'] = {'nlevels': rng.pick([16, 32]),
+                                      'contrast': rng.pick([0.0, 1e-4]),
+                                      'mode': rng.pick(['exponential',
+                                                        'linear']),
+                                      'relabel': rng.chance(0.5)}
         return out
 
     # ------------------------------------------------------------------
@@ -134,15 +149,52 @@ class SegmMachine(Machine):
                     m[labs] = np.cumsum(steps)
                     obj = SegmentationImage(m[arr])
                     stats.probe('deblend_input_with_label_gaps')
-                obj2 = call(deblend_sources, data, obj, sc['npixels'],
-                            nlevels=sc['nlevels'], contrast=sc['contrast'],
-                            mode=sc['mode'],
-                            connectivity=sc['connectivity'],
-                            relabel=sc['relabel'], progress_bar=False)
+                def deb(img, p, nproc=1):
+                    return call(deblend_sources, data, img, sc['npixels'],
+                                nlevels=p['nlevels'], contrast=p['contrast'],
+                                mode=p['mode'],
+                                connectivity=sc['connectivity'],
+                                relabel=p['relabel'], progress_bar=False,
+                                nproc=nproc)
+                pool = sc.get('pool')
+                if pool:
+                    from simphot.simpool import installed
+                    with installed(pool['sched']):
+                        obj2 = deb(obj, sc, pool['nproc'])
+                    stats.probe('init_through_simulated_pool')
+                    # the bookkeeping of the image is that of the serial
+                    # path on an equal input (the array is C06's business,
+                    # the maps are what C05's reads are compared with)
+                    ser = deb(SegmentationImage(obj.data.copy()), sc)
+                    if not isinstance(obj2, Raised) and not isinstance(
+                            ser, Raised):
+                        m1 = {int(k): [int(x) for x in v] for k, v in
+                              obj2._deblend_label_map.items()}
+                        m2 = {int(k): [int(x) for x in v] for k, v in
+                              ser._deblend_label_map.items()}
+                        if m1 != m2 or not np.array_equal(obj2.data,
+                                                          ser.data):
+                            raise Violation(
+                                'bookkeeping', 'pool_vs_serial',
+                                f'deblend map from nproc={pool["nproc"]} '
+                                f'{m1} differs from the serial one {m2}')
+                else:
+                    obj2 = deb(obj, sc)
                 if isinstance(obj2, Raised):
                     raise Violation('raises', 'deblend_sources', repr(obj2))
                 obj_in = obj
                 obj = obj2
+                extra_in = []
+                if sc.get('second_pass'):
+                    # deblend the result once more: the first-pass image
+                    # (array and bookkeeping) stays what it was
+                    dm2 = {int(k): [int(x) for x in v] for k, v in
+                           obj2._deblend_label_map.items()}
+                    obj3 = deb(obj2, sc['second_pass'])
+                    if not isinstance(obj3, Raised):
+                        extra_in.append((obj2, dm2))
+                        obj = obj3
+                        stats.probe('init_two_pass_deblend')
                 dmap = {int(k): [int(x) for x in v]
                         for k, v in obj._deblend_label_map.items()}
                 if dmap:
@@ -152,6 +204,8 @@ class SegmMachine(Machine):
             # the image handed to deblend_sources stays in the family: label
             # operations on the result are not operations on it
             st.actors.append(_Actor(obj_in, obj_in.data.copy(), {}))
+            for o2, dm in extra_in:
+                st.actors.append(_Actor(o2, o2.data.copy(), dm))
         st.nmut = 0
         st.pending_read = None
         return st
